@@ -11,6 +11,11 @@
    number of contractions since the initial part, age the implementation's own book-keeping number.
    deps is cut after K = 2L entries (an infinite run keeps growing its environments).
 
+   Properties: FreshEnvs / FreshWindow (the effective Hamiltonian and every measured energy are assembled from
+   parts that contain the current tensors), AgeRule, BoundaryKept, NoCrash, SweepCoversAllBonds, NoRecompute,
+   MemoryBound, EnergySize (refuted for the single-site engine on infinite systems -- a genuine defect of the
+   implementation, see known_findings.d/C13.json).
+
    Grain: one action per method of the sweep loop (phase markers: they put the environment calls the
    method makes into `todo`) and one action `Call` per call on the environment / state.
    TraceSweep.tla validates recorded executions of the real engines against exactly these actions. *)
@@ -385,6 +390,12 @@ AgeRule ==
     /\ eff.valid => AgeOf(eff.LP, cfg.a0L) /\ AgeOf(eff.RP, cfg.a0R)
     \* the size reported by update_local: the whole chain for finite systems
     /\ (cfg.finite /\ pc = "env") => cur.age = L + cfg.a0L + cfg.a0R
+
+\* EnergySize: the network contracted by full_contraction in post_update_local (its value is recorded as E_total
+\* of an environment sweep, and E_trunc = value - E0 otherwise) spans exactly the `age` sites reported for the update
+EnergySize == last.op = "full" => last.L.age + last.R.age = cur.age
+\* state constraint used to check EnergySize on everything but the single-site engine on infinite systems
+NotSingleSiteInfinite == pc = "config" \/ cfg.n = 2 \/ cfg.finite
 
 \* the boundary parts of a finite system are never given up, nothing ever raises
 BoundaryKept == pc # "config" /\ cfg.finite => LP[0] = MkEnv(cfg.a0L, 0, <<>>) /\ RP[L - 1] = MkEnv(cfg.a0R, 0, <<>>)
